@@ -169,10 +169,16 @@ func sameType(x, y types.Type) bool {
 
 func (x iface) eq(t types.Type, _y interface{}) bool {
 	y := _y.(iface)
-	return sameType(x.t, y.t) && (x.t == nil || equals(x.t, x.v, y.v))
+	if x.t == nil || y.t == nil {
+		return x.t == nil && y.t == nil
+	}
+	return sameType(x.t, y.t) && equals(x.t, x.v, y.v)
 }
 
 func (x iface) hash(outer types.Type) int {
+	if x.t == nil {
+		return 0 // nil interface is a valid map key
+	}
 	return hashType(x.t)*8581 + hash(outer, x.t, x.v)
 }
 
